@@ -136,6 +136,33 @@ def invoke_real(it, fv, args, kw):
 
 
 # ------------------------------------------------------------------------------------------ proof + model query driver
+_engine_discharge = E.discharge
+RETRY_SEEDS = (0, 1, 2)
+
+
+def _discharge_with_retries(run, formula, npc=None, nax=None, timeout_ms=10000, extra=()):
+    """z3's quantifier instantiation is sensitive to term numbering; an `unknown` is retried with other random seeds
+    (an `unknown` never becomes a verdict, so retrying only reduces undecided results)."""
+    total = 0.0
+    last = None
+    for k, seed in enumerate(RETRY_SEEDS):
+        if k:
+            z3.set_param('smt.random_seed', seed)
+        try:
+            v, m, dt = _engine_discharge(run, formula, npc, nax, timeout_ms=timeout_ms if k == 0 else max(timeout_ms // 2, 2000), extra=extra)
+        finally:
+            if k:
+                z3.set_param('smt.random_seed', 0)
+        total += dt
+        last = (v, m)
+        if v != 'unknown':
+            break
+    return last[0], last[1], total
+
+
+E.discharge = _discharge_with_retries
+
+
 class Collector:
     """stands in for report.Check while a function is verified; verdicts are forwarded after the model queries."""
 
@@ -1318,13 +1345,17 @@ def fast_post(pre, kind):
             L('step.lower.dominated_in_part_is_dominated', z3.Implies(z3.And(rng, t0 < sp_, z3.Not(gL(t0))), z3.Not(spec))),
             L('step.lower.cross_dominated_is_dominated', z3.Implies(z3.And(rng, t0 < sp_, z3.Not(gC(t0))), z3.Not(spec))),
             # converse steps: for every dominating input row a1 (universally, triggered by GE(a1, c)) ...
-            L('step.lower.dominated_is_dominated_in_part_or_cross',
+            L('step.lower.dominated_is_dominated_in_part_or_cross.pointwise',
               z3.ForAll([a1], z3.Implies(z3.And(rng, t0 < sp_, a1 >= 0, a1 < zi(m), body(a1, c)), z3.Or(z3.Not(gL(t0)), z3.Not(gC(t0)))), patterns=[GEf(a1, c)])),
+            # ... then in the form used by the conclusion (one instantiation of the line above at the dominating row)
+            L('step.lower.dominated_is_dominated_in_part_or_cross', z3.Implies(z3.And(rng, t0 < sp_, gL(t0), gC(t0)), spec)),
         ]
         if strict_sorted is not None:
             obs.append(strict_sorted)
-            obs.append((pre + '.step.upper.dominated_is_dominated_in_part',
-                        z3.ForAll([a1], z3.Implies(z3.And(rng, t0 >= sp_, a1 >= 0, a1 < zi(m), body(a1, c)), z3.Not(gU(t0))), patterns=[GEf(a1, c)]), 'lemma'))
+        obs.append((pre + '.step.upper.dominated_is_dominated_in_part.pointwise',
+                    z3.ForAll([a1], z3.Implies(z3.And(rng, t0 >= sp_, a1 >= 0, a1 < zi(m), body(a1, c)), z3.Not(gU(t0))), patterns=[GEf(a1, c)]), 'lemma'))
+        obs.append((pre + '.step.upper.dominated_is_dominated_in_part', z3.Implies(z3.And(rng, t0 >= sp_, gU(t0)), spec), 'lemma'))
+        # the conclusion is a propositional combination of the steps above
         return obs + [iff]
     return post
 
@@ -1339,7 +1370,8 @@ def fast_known(chk):
         return None
     cls = lambda p: has_tie_in_coordinate_0(p.run.c11['P'], p.run.c11['n'])
     return {'C11.Fast.is_pareto_optimal.iff': (FAST_KNOWN, cls),
-            'C11.Fast.is_pareto_optimal.step.upper.dominated_is_dominated_in_part': (FAST_KNOWN, cls)}
+            'C11.Fast.is_pareto_optimal.step.upper.dominated_is_dominated_in_part': (FAST_KNOWN, cls),
+            'C11.Fast.is_pareto_optimal.step.upper.dominated_is_dominated_in_part.pointwise': (FAST_KNOWN, cls)}
 
 
 def check_fast_against(chk, tier, strict):
